@@ -97,7 +97,12 @@ def run_std(rs, ctx, l, p, e):
     nf = int(gen.pick(rs, [1, 2, 3]))
     n = int(rs.integers(8, 20))
     b1 = gen.gen_batch(rs, cfg, cfg["arms"], n, nf, distinct_rows=5)
-    b2 = gen.gen_batch(rs, cfg, cfg["arms"], int(rs.integers(1, 6)), nf)
+    if "scale" in cfg["lp"] and rs.integers(2):
+        cfg["lp"]["scale"] = True
+    n2 = int(rs.integers(1, 6))
+    b2 = gen.gen_batch(rs, cfg, cfg["arms"], n2, nf)
+    if rs.integers(2):
+        b2["d"] = [b2["d"][0]] * n2  # a batch in which every row belongs to one arm (no row selection needed inside the library)
     ctxual = gen.is_ctx(cfg)
     Q = gen.gen_contexts(rs, int(gen.pick(rs, [1, 2, 3, 5])), nf if ctxual else 2)
     use_q = ctxual or bool(rs.integers(2))
